@@ -28,8 +28,10 @@ Resolve(cwd, raw) ==
    LET c == PL!Clean(PL!TrimProtocol(e.v)) IN
    IF PL!IsAbs(c) THEN [o |-> "ok", p |-> StrSeq(PL!Segs(c))] ELSE WalkC(cwd, PL!Segs(c))
 \* arguments the harness marked as syntactically canonical absolute paths come with their components
-ResolveA(st, c) == IF c.aok = "t" THEN [o |-> "ok", p |-> c.ac] ELSE Resolve(st.cwd, c.a)
-ResolveB(st, c) == IF c.bok = "t" THEN [o |-> "ok", p |-> c.bc] ELSE Resolve(st.cwd, c.b)
+\* "x": the argument is not valid UTF-8 (the harness put a raw 0xFF byte into it) - "handles path expansion" needs a string
+NotUtf8 == [o |-> "Path::FailedToString", p |-> <<>>]
+ResolveA(st, c) == IF c.aok = "t" THEN [o |-> "ok", p |-> c.ac] ELSE IF c.aok = "x" THEN NotUtf8 ELSE Resolve(st.cwd, c.a)
+ResolveB(st, c) == IF c.bok = "t" THEN [o |-> "ok", p |-> c.bc] ELSE IF c.bok = "x" THEN NotUtf8 ELSE Resolve(st.cwd, c.b)
 \* lexical join of relative segments onto an absolute directory, cleaned: ".." pops (and is dropped at the root)
 RECURSIVE JoinClean(_, _)
 JoinClean(cur, rest) == IF rest = <<>> THEN cur
@@ -119,6 +121,7 @@ Expected(st, c, Own) ==
          \* target: relative spellings are taken relative to the directory of the link
          \* (a spelling with ~, $ or a scheme is only settled for absolute targets: otherwise not judged)
          IF p = Root THEN R(st, RErrAny)
+         ELSE IF c.bok = "x" THEN R(st, RErrAny)                  \* a target that is not valid UTF-8 cannot be recorded: refused (which error wins is not settled), nothing changes
          ELSE IF c.b = <<>> THEN [st |-> st, res |-> RAny, alt |-> {}, partial |-> TRUE, paired |-> FALSE]     \* empty target: Path::Empty or "the link's own directory" - not settled
          ELSE IF ~PL!IsAbs(c.b) THEN
               (IF \E i \in 1..Len(c.b) : c.b[i] \in {"~", "$", ":"} THEN [st |-> st, res |-> RAny, alt |-> {}, partial |-> TRUE, paired |-> FALSE]
@@ -212,7 +215,7 @@ LoopAdmissible(st, c) == /\ \/ (c.op \in {"chmod_b", "chown_b"} /\ HasFlag(c, "F
 JudgeStepO(pre, s, Own) ==
    LET c == s.c
        viol == IF s.same = "t" THEN "-" ELSE RepViolation(s.post)
-   IN IF (c.aok # "t" /\ Ambiguous(c.a)) \/ (c.bok # "t" /\ Ambiguous(c.b)) THEN << <<"skip", "ambiguous-expansion">> >>
+   IN IF (c.aok = "f" /\ Ambiguous(c.a)) \/ (c.bok = "f" /\ Ambiguous(c.b)) THEN << <<"skip", "ambiguous-expansion">> >>
       ELSE LET o == Expected(pre, c, Own) IN
       IF s.r.o = "Path::LinkLooping" /\ LoopAdmissible(pre, c) THEN << <<"ok", c.op, "linklooping">> >>
       ELSE IF s.r.o = "panic" THEN << Sig(pre, c, s.r, o.res, "panic") >>
